@@ -8,7 +8,7 @@ import (
 func init() {
 	register(&Property{
 		ID: "C19", Level: "exploration", Builds: []string{"plain", "race"},
-		Rule:        "cases = update histories (15-60 steps) over both BSI implementations (32-bit columns / 64-bit columns in several 2^32 buckets), auto-sized and fixed-width (NewBSI(max,min), values drawn within [min,max]) indexes: SetValue / SetBigValue (values up to +-2^100 on the 64-bit index) / SetMany / ClearValues (fresh found-set or the index's own existence bitmap) / Retain / ParOr of 1-3 freshly built indexes on disjoint columns with equal and different widths and worker counts 0..4 / Increment, IncrementAll, Add (only while the index holds no negative value; found-sets of existing columns); values negative, zero, width-forcing (2^k, 2^k-1, -2^k, int64 extremes), narrower overwrites. After EVERY step GetCardinality, ValueExists, GetValue/GetBigValue (and GetValues/GetBigValues with duplicates and missing columns) are compared with a map[column]*big.Int model for every stored column plus absent probe columns. Every 6th step a copy is made by Clone, NewBSIRetainSet, MarshalBinary->UnmarshalBinary and WriteTo->ReadFrom: it must hold the same map and be Equals (64-bit). The same unit runs under the race detector (goroutine paths of ClearValues, ParOr, NewBSIRetainSet, Sum). Non-trivial: >= 2 stored columns at some point; distinct = hash of the step list.",
+		Rule:        "cases = update histories (15-60 steps) over both BSI implementations (32-bit columns / 64-bit columns in several 2^32 buckets), auto-sized and fixed-width (NewBSI(max,min), values drawn within [min,max]) indexes: SetValue / SetBigValue (values up to +-2^100 on the 64-bit index) / SetMany / ClearValues (fresh found-set or the index's own existence bitmap) / Retain / ParOr of 1-3 freshly built indexes on disjoint columns with equal and different widths and worker counts 0..4 / Increment, IncrementAll, Add (only while the index holds no negative value; found-sets of existing columns); values negative, zero, width-forcing (2^k, 2^k-1, -2^k, int64 extremes), narrower overwrites. After EVERY step GetCardinality, ValueExists, GetValue/GetBigValue (and GetValues/GetBigValues with duplicates and missing columns) are compared with a map[column]*big.Int model for every stored column plus absent probe columns. Every 6th step a copy is made by Clone, NewBSIRetainSet, MarshalBinary->UnmarshalBinary and WriteTo->ReadFrom: it must hold the same map and be Equals (64-bit). The same unit runs under the race detector (goroutine paths of ClearValues, ParOr, NewBSIRetainSet, Sum). Non-trivial: >= 2 stored columns at some point; distinct = hash of the step list. Operands of earlier ParOr / Add calls stay alive with their own models: they are re-checked after every later update of the target, updated themselves (TouchOperand) and added a second time.",
 		Assumptions: []string{"Increment/Add are exercised only on indexes without negative values and with found-sets of existing columns (conservative reading of 'on non-negative values')", "values stay within the range the index was created or auto-sized for"},
 		Units: []Unit{
 			{Name: "update-histories@plain,race", Quick: 8000, Thorough: 300000, Run: c19Histories},
